@@ -5,6 +5,11 @@
 // zz_verif_contracts.go) state what the composition must achieve.
 package account
 
+import (
+	"com.tuntun.rangers/node/src/common"
+	"com.tuntun.rangers/node/src/middleware/types"
+)
+
 // lemmaSetNonceUndo is a call frame that sets the nonce of an account object and is then reverted: what
 // RevertToSnapshot does for a frame whose journal holds that one entry.
 func lemmaSetNonceUndo(ao *accountObject, nonce uint64) {
@@ -12,4 +17,34 @@ func lemmaSetNonceUndo(ao *accountObject, nonce uint64) {
 	k := len(db.transitions)
 	ao.SetNonce(nonce)
 	db.transitions[k].(nonceChange).undo(db)
+}
+
+// lemmaAddRefundUndo: a frame that adds to the refund counter and is reverted.
+func lemmaAddRefundUndo(adb *AccountDB, gas uint64) {
+	k := len(adb.transitions)
+	adb.AddRefund(gas)
+	adb.transitions[k].(refundChange).undo(adb)
+}
+
+// lemmaAddLogUndo: a frame that emits one log and is reverted.
+func lemmaAddLogUndo(adb *AccountDB, log *types.Log) {
+	k := len(adb.transitions)
+	adb.AddLog(log)
+	adb.transitions[k].(addLogChange).undo(adb)
+}
+
+// lemmaTouchUndo: a frame that touches an account object and is reverted.
+func lemmaTouchUndo(ao *accountObject) {
+	db := ao.db
+	k := len(db.transitions)
+	ao.touch()
+	db.transitions[k].(touchChange).undo(db)
+}
+
+// lemmaSuicideUndo: a frame that self-destructs an account and is reverted.
+func lemmaSuicideUndo(adb *AccountDB, addr common.Address) {
+	k := len(adb.transitions)
+	if adb.Suicide(addr) {
+		adb.transitions[k].(suicideChange).undo(adb)
+	}
 }
